@@ -6,6 +6,7 @@ import (
 	"fmt"
 	"math/big"
 	"sort"
+	"strings"
 
 	secp256k1 "gitlab.com/yawning/secp256k1-voi"
 
@@ -24,7 +25,27 @@ type Prop struct {
 var registry = map[string]*Prop{}
 
 // Register adds a property (called from init functions).
-func Register(id string, run func(r *mon.Run)) { registry[id] = &Prop{ID: id, Run: run} }
+func Register(id string, run func(r *mon.Run)) {
+	registry[id] = &Prop{ID: id, Run: func(r *mon.Run) {
+		// the yield build (bin/check: discover_configs, cmd/verifyield) exists for the concurrent
+		// phases only: the sequential monitors would observe nothing new in it
+		yield := strings.Contains(r.Config, "yield")
+		if !yield || id == "C20" {
+			run(r)
+		}
+		// the concurrent phase of the property (hammer.go), in every build configuration
+		if b := hammerBuilders[id]; b != nil {
+			rounds := r.N(2, 10)
+			if yield {
+				rounds = r.N(4, 20)
+			}
+			runHammer(r, id, rounds, b)
+		}
+		if ops := coldConcOps[id]; ops != nil {
+			runConcurrentColdStart(r, id, r.N(30, 300), ops)
+		}
+	}}
+}
 
 // Get returns a registered property.
 func Get(id string) *Prop { return registry[id] }
